@@ -1072,5 +1072,103 @@ theorem accepts_spawnAt (s : SpecW) (w : World) (hs : Sim s w) (hh : Hist s w) (
     · have := (World.gen_step w (.spawnAt h b) id (by simp [Op.resurrects]; exact fun hh => hid hh.symm)).2
       exact Nat.le_trans (hh.gens id) this
 
+/-! ### the oracle's multiset comparison
+
+`sameComps` sorts both sides (over the ledger-instrumented types) and compares: it accepts exactly the
+permutations.  (Groundwork for the two operations `spec_accepts_step_partial` does not cover yet, whose
+drop lists are determined only up to order.) -/
+
+def ltC (x y : Comp) : Bool := x.1 < y.1 || (x.1 == y.1 && x.2 < y.2)
+def insC (x : Comp) (l : List Comp) : List Comp :=
+  (l.takeWhile (fun y => ltC y x)) ++ x :: (l.dropWhile (fun y => ltC y x))
+def isortC (l : List Comp) : List Comp := l.foldr insC []
+/-- `¬ lt y x`: the order the sorted lists are sorted by -/
+def leC (x y : Comp) : Prop := ltC y x = false
+
+theorem sameComps_eq (a b : List Comp) :
+    sameComps a b = (isortC (a.filter (fun c => c.1 < 10)) == isortC (b.filter (fun c => c.1 < 10))) := rfl
+
+theorem insC_perm (x : Comp) (l : List Comp) : (insC x l).Perm (x :: l) := by
+  unfold insC
+  have h := List.takeWhile_append_dropWhile (p := fun y => ltC y x) (l := l)
+  calc (List.takeWhile (fun y => ltC y x) l ++ x :: List.dropWhile (fun y => ltC y x) l).Perm
+        (x :: (List.takeWhile (fun y => ltC y x) l ++ List.dropWhile (fun y => ltC y x) l)) :=
+          List.perm_middle
+    _ = x :: l := by rw [h]
+
+theorem isortC_perm (l : List Comp) : (isortC l).Perm l := by
+  induction l with
+  | nil => exact List.Perm.refl _
+  | cons x xs ih => exact (insC_perm x _).trans (List.Perm.cons x ih)
+
+theorem leC_of_lt {a b : Comp} (h : ltC a b = true) : leC a b := by
+  unfold leC ltC at *
+  simp only [Bool.or_eq_true, decide_eq_true_eq, Bool.and_eq_true, beq_iff_eq, Bool.or_eq_false_iff,
+    decide_eq_false_iff_not, Bool.and_eq_false_imp] at *
+  omega
+
+theorem leC_trans {a b c : Comp} (h1 : leC a b) (h2 : leC b c) : leC a c := by
+  unfold leC ltC at *
+  simp only [Bool.or_eq_false_iff, decide_eq_false_iff_not, Bool.and_eq_false_imp, beq_iff_eq] at *
+  omega
+
+theorem leC_antisymm {a b : Comp} (h1 : leC a b) (h2 : leC b a) : a = b := by
+  unfold leC ltC at *
+  simp only [Bool.or_eq_false_iff, decide_eq_false_iff_not, Bool.and_eq_false_imp, beq_iff_eq] at *
+  have : a.1 = b.1 := by omega
+  have : a.2 = b.2 := by omega
+  exact Prod.ext ‹a.1 = b.1› this
+
+theorem mem_dropWhile_ge (x : Comp) (l : List Comp) (h : l.Pairwise leC) (y : Comp)
+    (hy : y ∈ l.dropWhile (fun y => ltC y x)) : leC x y := by
+  induction l with
+  | nil => simp at hy
+  | cons z zs ih =>
+    rw [List.pairwise_cons] at h
+    by_cases hz : ltC z x = true
+    · simp only [List.dropWhile_cons, hz, if_true] at hy; exact ih h.2 hy
+    · simp only [List.dropWhile_cons, hz] at hy
+      have hxz : leC x z := by simpa [leC] using hz
+      rcases List.mem_cons.1 hy with rfl | hy
+      · exact hxz
+      · exact leC_trans hxz (h.1 y hy)
+
+theorem mem_takeWhile_lt (x : Comp) (l : List Comp) (a : Comp)
+    (ha : a ∈ l.takeWhile (fun y => ltC y x)) : ltC a x = true := by
+  induction l with
+  | nil => simp at ha
+  | cons z zs ih =>
+    by_cases hz : ltC z x = true
+    · simp only [List.takeWhile_cons, hz, if_true] at ha
+      rcases List.mem_cons.1 ha with rfl | ha
+      · exact hz
+      · exact ih ha
+    · simp [hz] at ha
+
+theorem insC_sorted (x : Comp) (l : List Comp) (h : l.Pairwise leC) : (insC x l).Pairwise leC := by
+  unfold insC
+  rw [List.pairwise_append]
+  refine ⟨h.sublist (List.takeWhile_sublist _), ?_, ?_⟩
+  · rw [List.pairwise_cons]
+    exact ⟨fun y hy => mem_dropWhile_ge x l h y hy, h.sublist (List.dropWhile_sublist _)⟩
+  · intro a ha b hb
+    have hax := mem_takeWhile_lt x l a ha
+    rcases List.mem_cons.1 hb with rfl | hb
+    · exact leC_of_lt hax
+    · exact leC_trans (leC_of_lt hax) (mem_dropWhile_ge x l h b hb)
+
+theorem isortC_sorted (l : List Comp) : (isortC l).Pairwise leC := by
+  induction l with
+  | nil => exact List.Pairwise.nil
+  | cons x xs ih => exact insC_sorted x _ ih
+
+theorem sameComps_of_perm (a b : List Comp) (h : a.Perm b) : sameComps a b = true := by
+  rw [sameComps_eq, beq_iff_eq]
+  apply List.Perm.eq_of_pairwise (le := leC)
+  · intro x y _ _ h1 h2; exact leC_antisymm h1 h2
+  · exact isortC_sorted _
+  · exact isortC_sorted _
+  · exact (isortC_perm _).trans ((h.filter _).trans (isortC_perm _).symm)
+
 end Spec
 end Hecs
